@@ -82,8 +82,14 @@ def rdiff_task(task):
     r2 = run(argv[:-1] + ["%S"], stdin=("\n".join(lines) + "\n").encode(), cpu=30, wall=120)
     sh.procs += 1
     outs2, _ = align_lines(lines, r2)
+    # and both in one format: the sign is printed once, in front; a repeated %rS is the same number again
+    r3 = run(argv[:-1] + ["%rS|%S|%rS"], stdin=("\n".join(lines) + "\n").encode(), cpu=30, wall=120)
+    sh.procs += 1
+    sh.check_san(r3, "san", "leap:rdiff")
+    outs3, _ = align_lines(lines, r3)
+    outs3 = outs3 + [None] * (len(bs) - len(outs3))
     outs = ["%s|%s" % (x, y) for x, y in zip(outs, outs2)]
-    for b, got in zip(bs, outs):
+    for b, got, got3 in zip(bs, outs, outs3):
         lo, hi = min(a, b), max(a, b)
         nl = L.leaps_between(lo, hi)
         sgn = 1 if b >= a else -1
@@ -91,7 +97,14 @@ def rdiff_task(task):
         want_s = b - a
         _, sa = side(L, a)
         _, sb = side(L, b)
-        c = ("rdiff", "+" if sgn > 0 else "-", "leaps%d" % min(nl, 3), sa, sb)
+        c = ("rdiff", "+" if sgn > 0 else "-", "leaps%d" % min(nl, 3), sa, sb) + (("beyond-2^31",) if hi - lo >= 2 ** 31 else ())
+        want3 = "%d|%d|%d" % (want_r, abs(want_s), abs(want_r))
+        if got3 == want3:
+            sh.ok("leap-diff", c + ("one-format",))
+        else:
+            sh.bad("leap-diff", "leap:rdiff3:%s:%s:a=%s:b=%s" % (c[1], "with-leaps" if nl else "no-leaps", sa, sb),
+                   "ddiff %s %s -f '%%rS|%%S|%%rS' -> %r, expected %s (%d leap second(s) in between)" % (civ(a), civ(b), got3, want3, nl),
+                   dict(argv=argv[:-1] + ["%rS|%S|%rS"], input=civ(b), expected=want3, observed=got3), cls=c + ("one-format",))
         if got == "%d|%d" % (want_r, want_s):
             sh.ok("leap-diff", c)
         else:
@@ -255,7 +268,10 @@ def main(tier, seed):
     for ch in range(0, len(rnd), 100):
         tasks.append(("offs", (bindir, "TAI", sorted(rnd[ch:ch + 100]))))
     # %rS: all ordered pairs of boundary instants (regular seconds only) + random
-    pts = sorted(set([t + d for t in L.ts[1:] for d in (-2, -1, 0, 1)] + rng.sample(mids, 6) + [L.ts[0] + 5, L.ts[-1] + 86400 * 400]))
+    pts = sorted(set([t + d for t in L.ts[1:] for d in (-2, -1, 0, 1)] + rng.sample(mids, 6) + [L.ts[0] + 5, L.ts[-1] + 86400 * 400] +
+                     # far apart: differences beyond 2^31 and 2^32 s
+                     [0, 1, L.ts[0] - 1, 2 ** 31 + 5, L.ts[0] + 2 ** 31, L.ts[0] + 2 ** 31 - 28, L.steps[-1] + 2 ** 31 - 1, L.steps[-1] + 2 ** 32,
+                      EP_MAX - 100] + [rng.randrange(2 ** 31, EP_MAX) for _ in range(6)]))
     anchors = pts if not quick else rng.sample(pts, 40) + [L.steps[0] - 1, L.steps[0], L.steps[-1] - 1, L.steps[-1]]
     for a in anchors:
         tasks.append(("rdiff", (bindir, a, pts + [rng.randrange(L.ts[0], L.ts[-1] + 10 ** 8) for _ in range(30)])))
@@ -282,7 +298,7 @@ def main(tier, seed):
     ctx.rule = ("events: (0) dconv --from-zone TAI|GPS for stamps -1..+38 s around every table entry (the inverse mapping); (1) dconv --zone TAI|GPS at every table entry -2..+2 s, interval midpoints, year starts to 4093, "
                 "2^31 and 2^32 +-1, random: the applied offset must be the table value (TAI-UTC of the last entry <= t; "
                 "GPS = TAI-19 from 1980-01-06); (2) ddiff A B -f '%%rS|%%S' on ordered pairs of boundary instants: real "
-                "seconds = UTC difference + leap seconds in (A,B], antisymmetric; (3) dadd DT +-Nrs for instants -5..+5 s "
+                "seconds = UTC difference + leap seconds in (A,B], antisymmetric, also for operands more than 2^31 and 2^32 s apart, and with %%rS|%%S|%%rS in one format; (3) dadd DT +-Nrs for instants -5..+5 s "
                 "around every inserted second x N in {1..6, 86400, 86401, 1 y, 2 y, random}: lands N SI seconds later, "
                 "23:59:60 exactly on inserted seconds; N also the distance between any two insertions +-3 s; (4) the same with the operand in a zone's wall clock "
                 "(dadd --from-zone Z -- [Kd] Nrs [0d], %d zones): real seconds count on the UTC line. Oracle = lib/leap-seconds.list (%d entries, %d insertions). "
